@@ -574,19 +574,23 @@ func (s *hybridSearch) Execute() ([]HybridSearchResult, error) {
 	// Step 4: Combine results using fusion strategy
 	var combinedScores map[uint32]float64
 
-	// Use fusion to combine vector and text results
-	if len(vectorResults) > 0 && len(textResults) > 0 {
+	// Use fusion to combine vector and text results. The branch is selected by
+	// which modalities were queried, not by which of them returned something:
+	// a queried modality with no hits still takes part in the fusion.
+	vectorQueried := len(s.vectorQuery) > 0
+	textQueried := len(s.textQueries) > 0
+	if vectorQueried && textQueried {
 		combinedScores = s.fusion.Combine(vectorResults, textResults)
-	} else if len(vectorResults) > 0 {
+	} else if vectorQueried {
 		combinedScores = vectorResults
-	} else if len(textResults) > 0 {
+	} else if textQueried {
 		combinedScores = textResults
 	} else {
 		combinedScores = make(map[uint32]float64)
 	}
 
 	// If only metadata search was performed (no vector or text)
-	if len(combinedScores) == 0 && len(candidateIDs) > 0 {
+	if !vectorQueried && !textQueried && len(candidateIDs) > 0 {
 		for _, id := range candidateIDs {
 			combinedScores[id] = 1.0
 		}
